@@ -6,7 +6,10 @@
 (*                                                                         *)
 (* One line per history (operations on ONE fresh Fetcher): "call" (one     *)
 (* FetchData call: what the peer saw and did, what the call returned, the  *)
-(* Fetcher's data afterwards, where the NTP request went) and "store"      *)
+(* Fetcher's data afterwards, where the NTP request went), "late" (after a  *)
+(* call whose peer stalled past the deadline of the call's context: the    *)
+(* Fetcher's data once the peer has sent the rest of its message and       *)
+(* closed, and nothing started by the call runs any more) and "store"      *)
 (* (StoreCookie).  Histories are independent and visited as a 16-ary tree  *)
 (* so that TLC's workers share them and counterexamples stay short.  The   *)
 (* specification's variables are BOUND to the logged projection; the       *)
@@ -50,7 +53,7 @@ Descend ==
 Step ==
   /\ l > 0 /\ p < Len(Trace[l].evs)
   /\ p' = p + 1 /\ l' = l
-  /\ UNCHANGED <<ncalls, ndials, nstore>>
+  /\ UNCHANGED <<ncalls, ndials, nstore, nstalls, ctx, pend, late>>
   /\ LET e == Trace[l].evs[p + 1] IN
      \/ /\ e.ev = "call"
         /\ LET ex == e.dialed > 0      \* the peer saw a connection during this call
@@ -71,6 +74,10 @@ Step ==
         /\ data' = ToData(e.post)
         /\ gpool' = IF good THEN Append(gpool, e.id) ELSE gpool
         /\ UNCHANGED <<conn, sess, sv, ret, dest, good>>
+     \* NtsKe!LateRecord ... LateClose: what the peer still had to send has arrived
+     \/ /\ e.ev = "late"
+        /\ data' = ToData(e.post)
+        /\ UNCHANGED <<conn, sess, sv, ret, dest, good, gpool>>
 
 TNext == Descend \/ Step
 TSpec == TInit /\ [][TNext]_tvars
@@ -110,6 +117,8 @@ StrictStep ==
             /\ e.via = "fetch" => r.ret = ret'.data
             /\ (r.ok /\ e.dest.sent) => (dest'.server = r.ret.server /\ dest'.port = r.ret.port)
     /\ e.ev = "store" => data' = [data EXCEPT !.pool = Append(@, e.id)]
+    \* nothing reads the connection of a call that has returned
+    /\ e.ev = "late" => data' = data
 StrictProp == [][StrictStep]_tvars
 
 \* the whole file must be consumed (a TLC evaluation error or a record that
